@@ -291,6 +291,23 @@ Fixpoint plain_fiber_at (path : list Z) (t : tree) : option fib :=
                end
   end.
 
+(* getPayload with a caller-supplied default and allocate=False, read off the plain tree:
+   the stored payload if the element exists (an explicit default-valued one included), the
+   caller's default as soon as a coordinate of the point is missing *)
+Fixpoint plain_get_d (dflt : Z) (pt : list Z) (t : tree) : option tree :=
+  match pt, t with
+  | [], _ => None
+  | c :: pt', Node es =>
+    match lookup c es with
+    | None => Some (Leaf dflt)
+    | Some sub => match pt' with
+                  | [] => Some sub
+                  | _ :: _ => match sub with Node _ => plain_get_d dflt pt' sub | Leaf _ => None end
+                  end
+    end
+  | _ :: _, Leaf _ => None
+  end.
+
 Fixpoint index_of (c : Z) (cs : list Z) : option nat :=
   match cs with
   | [] => None
@@ -384,6 +401,10 @@ Definition c03_step (n : nat) (d : Z) (m : pmap) (o : op) (out : V) (before afte
       let m' := pm_set pt new m in
       (V_eqb out (VL [VZ 0; VL [VZ 0; VZ new]]) && pm_same after_content (pm_content d m'), m')
     else (pm_same after_content (pm_content d m), m)
+  | OGetD pt dflt =>
+    (pure && V_eqb out (VL [VZ 0; match plain_get_d dflt pt tb with
+                                  | Some t => VL [VZ 0; V_tree t]
+                                  | None => VL [] end]), m)
   | _ => (true, resync)
   end.
 
